@@ -31,6 +31,7 @@ package main
 import (
 	"bytes"
 	"context"
+	"crypto/sha1"
 	"errors"
 	"flag"
 	"fmt"
@@ -48,6 +49,7 @@ import (
 	"strings"
 	"sync"
 	"sync/atomic"
+	"syscall"
 	"time"
 
 	webdav "github.com/emersion/go-webdav"
@@ -855,6 +857,11 @@ func serveTree(w workload) (dir string, c *webdav.Client, done func()) {
 		cleanup = func() { tr.CloseIdleConnections(); srv.Close() }
 	} else {
 		hc = inprocClient{h}
+		if w.transport == "auth" {
+			// a client built with HTTPClientWithBasicAuth, fresh for this workload: the
+			// goroutines' first requests through it run concurrently, no warm-up
+			hc = webdav.HTTPClientWithBasicAuth(hc, "verif", "secret")
+		}
 	}
 	c, err := webdav.NewClient(recordingClient{hc}, endpoint)
 	if err != nil {
@@ -862,6 +869,41 @@ func serveTree(w workload) (dir string, c *webdav.Client, done func()) {
 		os.Exit(2)
 	}
 	return dir, c, func() { cleanup(); os.RemoveAll(dir) }
+}
+
+// modes lists the permission bits of every file and directory of a client's
+// collection ("relative path=0644", in Walk order): the Coq trees carry no modes, so
+// this part of the observation is compared concurrently vs alone only.
+func modes(dir, name string) string {
+	var items []string
+	root := filepath.Join(dir, name)
+	filepath.Walk(root, func(p string, fi os.FileInfo, err error) error {
+		if err != nil {
+			return nil
+		}
+		rel, _ := filepath.Rel(root, p)
+		items = append(items, hx.S(fmt.Sprintf("%s=%04o", filepath.ToSlash(rel), fi.Mode().Perm())))
+		return nil
+	})
+	return hx.L(items...)
+}
+
+// processUmask reads the process-wide umask (the only way is to set it); called only
+// while no request is in flight.
+func processUmask() int {
+	u := syscall.Umask(0)
+	syscall.Umask(u)
+	return u
+}
+
+// umaskItem renders the umask before and after a workload and puts it back when the
+// workload changed it, so that one failure does not hide the following ones.
+func umaskItem(before int) string {
+	after := processUmask()
+	if after != before {
+		syscall.Umask(before)
+	}
+	return hx.L("um", hx.I(int64(before)), hx.I(int64(after)))
 }
 
 func subtree(dir, name string) string {
@@ -874,10 +916,15 @@ func runConc(w workload, watchdog time.Duration) string {
 	concTree := make([]string, n)
 	aloneOut := make([][]string, n)
 	aloneTree := make([]string, n)
+	concModes := make([]string, n)
+	aloneModes := make([]string, n)
 	stray := false
+	um := ""
 	finished := make(chan struct{})
 	go func() {
 		defer close(finished)
+		umask0 := processUmask()
+		defer func() { um = umaskItem(umask0) }()
 		// all at once: one client, one handler
 		dir, c, done := serveTree(w)
 		var start, wg sync.WaitGroup
@@ -897,6 +944,7 @@ func runConc(w workload, watchdog time.Duration) string {
 		names := map[string]bool{}
 		for i, cl := range w.clients {
 			concTree[i] = subtree(dir, cl.name)
+			concModes[i] = modes(dir, cl.name)
 			names[cl.name] = true
 		}
 		ents, _ := os.ReadDir(dir)
@@ -913,6 +961,7 @@ func runConc(w workload, watchdog time.Duration) string {
 				aloneOut[i] = append(aloneOut[i], runOp(c, cl.name, o))
 			}
 			aloneTree[i] = subtree(dir, cl.name)
+			aloneModes[i] = modes(dir, cl.name)
 			done()
 		}
 	}()
@@ -924,8 +973,9 @@ func runConc(w workload, watchdog time.Duration) string {
 	}
 	items := []string{"cobs", hx.B(stray), "0"}
 	for i := range w.clients {
-		items = append(items, hx.L("cl", hx.L(concOut[i]...), concTree[i], hx.L(aloneOut[i]...), aloneTree[i]))
+		items = append(items, hx.L("cl", hx.L(concOut[i]...), concTree[i], hx.L(aloneOut[i]...), aloneTree[i], concModes[i], aloneModes[i]))
 	}
+	items = append(items, um)
 	return w.Sx() + " " + hx.L(items...)
 }
 
@@ -1025,6 +1075,45 @@ func concWorkloads(rng *hx.Rand, thorough bool, scale int) []workload {
 	for i := 0; i < nHTTP; i++ {
 		out = append(out, randWorkload(rng, "http", 6, 12))
 	}
+	nAuth := 80
+	if thorough {
+		nAuth = 500
+	}
+	if scale == 0 {
+		nAuth = 200
+	}
+	for i := 0; i < nAuth; i++ {
+		out = append(out, randWorkload(rng, "auth", 6, 4))
+	}
+	// storms: many goroutines creating files and collections under new names as fast as
+	// they can - whatever process-wide state a request touches for an instant (umask,
+	// working directory, a shared buffer) is hit by an overlapping request of another
+	// client, and shows in the answers, the contents or the permission bits
+	nStorm := 16
+	if thorough {
+		nStorm = 80
+	}
+	if scale == 0 {
+		nStorm = 8
+	}
+	for i := 0; i < nStorm; i++ {
+		w := workload{transport: "inproc"}
+		if i%4 == 3 {
+			w.transport = "http"
+		}
+		for c := 0; c < 12; c++ {
+			cl := cclient{name: fmt.Sprintf("c%d", c), tree: davx.Dir()}
+			for j := 0; j < 50; j++ {
+				if (j+c)%2 == 0 {
+					cl.ops = append(cl.ops, op{kind: "put", q: []string{fmt.Sprintf("f%02d", j)}, content: "storm"})
+				} else {
+					cl.ops = append(cl.ops, op{kind: "mkcol", q: []string{fmt.Sprintf("d%02d", j)}})
+				}
+			}
+			w.clients = append(w.clients, cl)
+		}
+		out = append(out, w)
+	}
 	// a few wide ones: many goroutines, long programs
 	wide := 6
 	if thorough {
@@ -1058,13 +1147,35 @@ func runConcAll(ws []workload, sink *hx.Sink, watchdog time.Duration) {
 
 // raceSoak builds this command with -race and runs the conc workload in it; a race
 // report yields the line "(conc race) (cobs 0 0 race <report>)".
+func fileExists(p string) bool {
+	_, err := os.Stat(p)
+	return err == nil
+}
+
 func raceSoak(sink *hx.Sink) {
 	scratch := os.Getenv("VERIF_SCRATCH")
 	if scratch == "" {
 		scratch = os.TempDir()
 	}
 	exe := filepath.Join(scratch, "c18-race")
-	build := exec.Command("go", "build", "-race", "-tags", "verif", "-o", exe, "./cmd/c18")
+	// the same module file bin/vlib.py builds this command with: harness/.mods/<tag>/go.mod
+	// names the tree under test (/repo, or VERIF_REPO for seeded changes and mutations)
+	args := []string{"build", "-race", "-tags", "verif", "-o", exe}
+	repo := os.Getenv("VERIF_REPO")
+	if repo == "" {
+		repo = "/repo"
+	}
+	if abs, err := filepath.Abs(repo); err == nil {
+		repo = abs
+	}
+	tag := "main"
+	if repo != "/repo" {
+		tag = fmt.Sprintf("%x", sha1.Sum([]byte(repo)))[:10]
+	}
+	if mf := filepath.Join(".mods", tag, "go.mod"); fileExists(mf) {
+		args = append(args, "-modfile", mf)
+	}
+	build := exec.Command("go", append(args, "./cmd/c18")...)
 	if out, err := build.CombinedOutput(); err != nil {
 		fmt.Fprintf(os.Stderr, "c18: race build failed, soak skipped: %v\n%s\n", err, out)
 		sink.Put("(conc race) (cobs 0 0 nobuild)")
